@@ -565,12 +565,17 @@ fn n5_xml_comment_text(comment: &str) -> (r: String)
 
 pub open spec fn b_md_prefix() -> Seq<u8> { seq![0x5bu8, 0x2fu8, 0x2fu8, 0x5du8, 0x3au8] } // "[//]:"
 
-/// the predicate of the real closure `|c| ['(', '"', '\''].contains(&c)`
-pub open spec fn md_delim() -> spec_fn(char) -> bool { |c: char| ['(', '"', '\'']@.contains(c) }
+/// the predicate of the real closure `|c| ['(', '"', '\''].contains(&c)`. Opaque: array-literal reasoning
+/// (vstd's array axioms) was the second most expensive quantifier in N6's profile; it is revealed only
+/// inside the closure body and inside `lemma_md_delim`.
+#[verifier::opaque]
+pub open spec fn is_md_delim(c: char) -> bool { ['(', '"', '\'']@.contains(c) }
+pub open spec fn md_delim() -> spec_fn(char) -> bool { |c: char| is_md_delim(c) }
 
 pub proof fn lemma_md_delim(c: char)
     ensures md_delim()(c) == (c == '(' || c == '"' || c == '\'')
 {
+    reveal(is_md_delim);
     let a = ['(', '"', '\''];
     assert(a@.len() == 3 && a@[0] == '(' && a@[1] == '"' && a@[2] == '\'');
     if a@.contains(c) { let i = choose|i: int| 0 <= i < a@.len() && a@[i] == c; }
@@ -581,6 +586,7 @@ pub open spec fn md_close_byte(open: u8) -> u8 { if open == 0x28u8 { 0x29u8 } el
 
 /// `p`: first "[//]:"; `o`: the first `(`, `"` or `'` after it (std `find` with the closure's
 /// predicate on the text after the prefix); `c`: the LAST occurrence of the matching closing byte, after `o`.
+#[verifier::opaque]
 pub open spec fn md_parts(t: Seq<char>, p: int, o: int, c: int) -> bool {
     let b = utf8(t);
     &&& first_occ(b, p, b_md_prefix())
@@ -598,6 +604,7 @@ pub open spec fn nl_or_sp(x: u8) -> u8 { if x == 0x0au8 { 0x0au8 } else { 0x20u8
 /// is blanked or kept (which of the two is the newline clause's business); the text strictly
 /// between the delimiters unchanged (the tag "as written"); closing delimiter blanked; text after
 /// it unchanged.
+#[verifier::opaque]
 pub open spec fn n6_frame(inp: Seq<u8>, out: Seq<u8>, p: int, o: int, c: int) -> bool {
     &&& out.len() == inp.len()
     &&& forall|i: int| 0 <= i < inp.len() ==> (
@@ -606,9 +613,19 @@ pub open spec fn n6_frame(inp: Seq<u8>, out: Seq<u8>, p: int, o: int, c: int) ->
             else { out[i] == inp[i] })
 }
 
-/// the filler between "[//]:" and the content keeps exactly the line breaks
-pub open spec fn fill_keeps_newlines(b: Seq<u8>, p: int, fill: Seq<u8>) -> bool {
-    forall|k: int| 0 <= k < fill.len() ==> (#[trigger] fill[k] == 0x0au8) == (b[p + 5 + k] == 0x0au8)
+/// `r1` = the result after the head loop: text before "[//]:" unchanged, "[//]:" blanked, then one
+/// byte per byte up to and including the opening delimiter, each blanked or kept, the delimiter blanked
+pub open spec fn n6_head_ok(b: Seq<u8>, p: int, o: int, r1: Seq<u8>) -> bool {
+    &&& r1.len() == o + 1
+    &&& forall|k: int| 0 <= k < p ==> #[trigger] r1[k] == b[k]
+    &&& forall|k: int| p <= k < p + 5 ==> #[trigger] r1[k] == 0x20u8
+    &&& forall|k: int| p + 5 <= k < o ==> #[trigger] r1[k] == 0x20u8 || r1[k] == b[k]
+    &&& r1[o] == 0x20u8
+}
+
+/// the bytes written for the part between "[//]:" and the content keep exactly the line breaks
+pub open spec fn head_keeps_newlines(b: Seq<u8>, p: int, o: int, r1: Seq<u8>) -> bool {
+    forall|k: int| p + 5 <= k <= o ==> (#[trigger] r1[k] == 0x0au8) == (b[k] == 0x0au8)
 }
 
 proof fn lemma_md_literals()
@@ -624,52 +641,64 @@ proof fn lemma_md_literals()
     assert(utf8(" "@) =~= sp(1));
 }
 
-/// the pushed pieces, put together, satisfy the frame (proved)
-proof fn lemma_n6_result(b: Seq<u8>, out: Seq<u8>, p: int, o: int, c: int, fill: Seq<u8>)
+/// text before "[//]:" then five spaces, indexed (proved)
+proof fn lemma_n6_prefix(b: Seq<u8>, p: int, pre: Seq<u8>)
+    requires
+        0 <= p <= b.len(),
+        pre == Seq::<u8>::empty() + b.subrange(0, p) + sp(5), // [N6.proof.prefix_blanked_by_five_spaces]
+    ensures
+        pre.len() == p + 5,
+        forall|k: int| 0 <= k < p + 5 ==> #[trigger] pre[k] == (if k < p { b[k] } else { 0x20u8 }),
+{
+    assert forall|k: int| 0 <= k < p + 5 implies #[trigger] pre[k] == (if k < p { b[k] } else { 0x20u8 }) by {
+        if k < p { assert(pre[k] == b.subrange(0, p)[k]); } else { assert(pre[k] == sp(5)[k - p]); }
+    }
+}
+
+/// head + content + blanked closing delimiter + rest satisfy the frame (proved)
+proof fn lemma_n6_result(b: Seq<u8>, r1: Seq<u8>, out: Seq<u8>, p: int, o: int, c: int)
     requires
         0 <= p && p + 5 <= o < c < b.len(),
-        fill.len() == o - (p + 5) + 1,
-        forall|k: int| 0 <= k < fill.len() ==> #[trigger] fill[k] == 0x20u8 || fill[k] == b[p + 5 + k],
-        fill[o - (p + 5)] == 0x20u8,
-        out == b.subrange(0, p) + sp(5) + fill + b.subrange(o + 1, c) + seq![0x20u8]
-            + (if c + 1 < b.len() { b.subrange(c + 1, b.len() as int) } else { Seq::<u8>::empty() }),
+        n6_head_ok(b, p, o, r1), // [N6.proof.head_is_prefix_blanked_then_filler]
+        out == (if c + 1 < b.len() { (r1 + b.subrange(o + 1, c)).push(0x20u8) + b.subrange(c + 1, b.len() as int) } // [N6.proof.result_is_head_content_blank_rest]
+                else { (r1 + b.subrange(o + 1, c)).push(0x20u8) }),
     ensures
         n6_frame(b, out, p, o, c),
-        forall|k: int| 0 <= k < fill.len() ==> out[p + 5 + k] == #[trigger] fill[k],
+        out.len() == b.len(),
+        forall|k: int| 0 <= k <= o ==> #[trigger] out[k] == r1[k],
 {
-    assert(out.len() == b.len());
+    reveal(n6_frame);
+    let mid = (r1 + b.subrange(o + 1, c)).push(0x20u8);
+    assert(mid.len() == c + 1);
+    assert forall|i: int| 0 <= i <= c implies #[trigger] out[i] == mid[i] by {}
     assert forall|i: int| 0 <= i < b.len() implies (
             if p <= i < p + 5 || i == o || i == c { #[trigger] out[i] == 0x20u8 }
             else if p + 5 <= i < o { out[i] == 0x20u8 || out[i] == b[i] }
             else { out[i] == b[i] }) by {
-        if i < p { assert(out[i] == b.subrange(0, p)[i]); }
-        else if i < p + 5 { assert(out[i] == sp(5)[i - p]); }
-        else if i <= o { assert(out[i] == fill[i - (p + 5)]); }
-        else if i < c { assert(out[i] == b.subrange(o + 1, c)[i - (o + 1)]); }
-        else if i == c { }
+        if i <= o { assert(out[i] == mid[i] && mid[i] == r1[i]); }
+        else if i < c { assert(out[i] == mid[i] && mid[i] == b.subrange(o + 1, c)[i - (o + 1)]); }
+        else if i == c { assert(out[i] == mid[i]); }
         else { assert(out[i] == b.subrange(c + 1, b.len() as int)[i - (c + 1)]); }
     }
-    assert forall|k: int| 0 <= k < fill.len() implies out[p + 5 + k] == #[trigger] fill[k] by {
-        assert(out[p + 5 + k] == fill[(p + 5 + k) - (p + 5)]);
-    }
+    assert forall|k: int| 0 <= k <= o implies #[trigger] out[k] == r1[k] by { assert(out[k] == mid[k]); }
 }
 
-/// frame + "the filler keeps exactly the line breaks" => every '\n' stays where it was (proved)
-proof fn lemma_n6_newlines(b: Seq<u8>, out: Seq<u8>, p: int, o: int, c: int, fill: Seq<u8>)
+/// frame + "the head keeps exactly the line breaks" => every '\n' stays where it was (proved)
+proof fn lemma_n6_newlines(b: Seq<u8>, r1: Seq<u8>, out: Seq<u8>, p: int, o: int, c: int)
     requires
         0 <= p && p + 5 <= o < c < b.len(),
-        fill.len() == o - (p + 5) + 1,
         n6_frame(b, out, p, o, c),
-        forall|k: int| 0 <= k < fill.len() ==> out[p + 5 + k] == #[trigger] fill[k],
-        fill_keeps_newlines(b, p, fill),
+        forall|k: int| 0 <= k <= o ==> #[trigger] out[k] == r1[k],
+        head_keeps_newlines(b, p, o, r1),
         b.subrange(p, p + 5) == b_md_prefix(),
         b[o] != 0x0au8 && b[c] != 0x0au8,
     ensures
         same_len_and_newlines(b, out),
 {
+    reveal(n6_frame);
     assert forall|i: int| 0 <= i < b.len() implies (#[trigger] out[i] == 0x0au8) == (b[i] == 0x0au8) by {
         if p <= i < p + 5 { assert(b[i] == b.subrange(p, p + 5)[i - p] && b[i] == b_md_prefix()[i - p]); }
-        else if p + 5 <= i < o { assert(out[p + 5 + (i - (p + 5))] == fill[i - (p + 5)]); }
+        else if p + 5 <= i <= o { assert(out[i] == r1[i]); }
     }
 }
 
@@ -715,6 +744,37 @@ proof fn lemma_n6_open_byte(b: Seq<u8>, o: int, v: Seq<char>)
     assert(b.subrange(o, b.len() as int)[0] == b[o]);
 }
 
+/// the conjuncts of `md_parts`, established one by one in N6, put together (proved)
+proof fn lemma_md_parts(t: Seq<char>, p: int, o: int, c: int)
+    requires
+        first_occ(utf8(t), p, b_md_prefix()),
+        p + 5 <= o < c < utf8(t).len(),
+        find_pred_spec(decode_utf8(utf8(t).subrange(p + 5, utf8(t).len() as int)), md_delim()) == Some((o - (p + 5)) as usize),
+        utf8(t)[o] == 0x28u8 || utf8(t)[o] == 0x22u8 || utf8(t)[o] == 0x27u8,
+        utf8(t)[c] == md_close_byte(utf8(t)[o]),
+        forall|q: int| c < q < utf8(t).len() ==> #[trigger] utf8(t)[q] != md_close_byte(utf8(t)[o]),
+    ensures
+        md_parts(t, p, o, c),
+{
+    reveal(md_parts);
+}
+
+/// (pre-fix text only) text before "[//]:" + five spaces + a run of spaces is a well-formed head (proved)
+proof fn lemma_n6_repeat_head(b: Seq<u8>, p: int, o: int, pre: Seq<u8>, rep: Seq<u8>)
+    requires
+        0 <= p && p + 5 <= o < b.len(),
+        pre.len() == p + 5,
+        forall|k: int| 0 <= k < p + 5 ==> #[trigger] pre[k] == (if k < p { b[k] } else { 0x20u8 }),
+        rep.len() == o - (p + 5) + 1,
+        forall|i: int| 0 <= i < rep.len() ==> #[trigger] rep[i] == 0x20u8,
+    ensures
+        n6_head_ok(b, p, o, pre + rep),
+{
+    let r1 = pre + rep;
+    assert forall|k: int| 0 <= k < p + 5 implies #[trigger] r1[k] == pre[k] by {}
+    assert forall|k: int| p + 5 <= k <= o implies #[trigger] r1[k] == 0x20u8 by { assert(r1[k] == rep[k - (p + 5)]); }
+}
+
 //@unit id=N6 file=src/language_parsers/markdown.rs fn=markdown_comments_parser slice_from=<<let comment = &source_code[node.byte_range()];>> slice_until=<<Some(result)>>
 //@wrapper
 fn n6_markdown_comment_text(verif_comment_text: &str) -> (r: Option<String>)
@@ -730,15 +790,13 @@ fn n6_markdown_comment_text(verif_comment_text: &str) -> (r: Option<String>)
         let o = open_idx as int;
         let c = close_idx as int;
         let out = utf8(result@);
-        let rest = if c + 1 < bc.len() { bc.subrange(c + 1, bc.len() as int) } else { Seq::<u8>::empty() };
-        assert(out == bc.subrange(0, p) + sp(5) + verif_fill + bc.subrange(o + 1, c) + seq![0x20u8] + rest); // [N6.proof.result_is_text_with_prefix_and_delimiters_blanked]
-        assert(bc.subrange(p, p + 5) == b_md_prefix());
-        lemma_n6_result(bc, out, p, o, c, verif_fill);
-        // (a condition, not an assertion: text whose filler drops a line break fails the newline CLAUSE itself)
-        if fill_keeps_newlines(bc, p, verif_fill) {
-            lemma_n6_newlines(bc, out, p, o, c, verif_fill);
+        lemma_n6_result(bc, verif_r1, out, p, o, c);
+        // (a condition, not an assertion: a text whose head drops a line break fails the newline CLAUSE itself)
+        if head_keeps_newlines(bc, p, o, verif_r1) {
+            assert(bc.subrange(p, p + 5) == b_md_prefix());
+            lemma_n6_newlines(bc, verif_r1, out, p, o, c);
         }
-        assert(md_parts(comment@, p, o, c)); // [N6.proof.delimiters_are_as_specified]
+        lemma_md_parts(comment@, p, o, c); // [N6.proof.delimiters_are_as_specified]
     }
     Some(result)
 //@edit rule=SLICE find=<<&source_code[node.byte_range()]>>
@@ -778,39 +836,45 @@ verif_comment_text
     }
 //@edit rule=ghost before=<<result.push_str(" ".repeat(>> optional=1
     // (only the text before commit 4a26ac1 has this statement; kept so that the old text is DECIDED)
+    let ghost verif_pre0 = utf8(result@);
     proof {
+        lemma_n6_prefix(bc, prefix_idx as int, verif_pre0);
         assert(utf8(" "@).len() == 1);
         assert(utf8(" "@).len() * (open_idx - (prefix_idx + 5) + 1) == open_idx - (prefix_idx + 5) + 1) by (nonlinear_arith) requires utf8(" "@).len() == 1;
-        assert(utf8(result@) =~= bc.subrange(0, prefix_idx as int) + sp(5));
+        assert forall|rep: Seq<u8>| rep.len() == open_idx - (prefix_idx + 5) + 1 && (forall|i: int| 0 <= i < rep.len() ==> #[trigger] rep[i] == utf8(" "@)[i % 1])
+            implies n6_head_ok(bc, prefix_idx as int, open_idx as int, #[trigger] (verif_pre0 + rep)) by {
+            assert forall|i: int| 0 <= i < rep.len() implies #[trigger] rep[i] == 0x20u8 by { assert(i % 1 == 0); assert(utf8(" "@)[0] == sp(1)[0]); }
+            lemma_n6_repeat_head(bc, prefix_idx as int, open_idx as int, verif_pre0, rep);
+        }
     }
 //@edit rule=E15 find=<<for $a in &$b.as_bytes()[$c..=$d]>> optional=1
     let verif_head = verif_bytes_incl($b, $c, $d);
     let ghost verif_pre = utf8(result@);
-    proof { assert(verif_pre =~= bc.subrange(0, prefix_idx as int) + sp(5)); } // [N6.proof.prefix_blanked_by_five_spaces]
+    proof { lemma_n6_prefix(bc, prefix_idx as int, verif_pre); }
     for $a in it: verif_head
         invariant
-            utf8(result@).len() == verif_pre.len() + it.index@, // [N6.inv.one_byte_per_head_byte]
-            forall|k: int| 0 <= k < verif_pre.len() ==> #[trigger] utf8(result@)[k] == verif_pre[k], // [N6.inv.text_before_head_untouched]
-            forall|k: int| 0 <= k < it.index@ ==> #[trigger] utf8(result@)[verif_pre.len() + k] == nl_or_sp(verif_head@[k]), // [N6.inv.head_blanked_keeping_newlines]
+            utf8(result@).len() == prefix_idx + 5 + it.index@, // [N6.inv.one_byte_per_head_byte]
+            forall|k: int| 0 <= k < prefix_idx + 5 ==> #[trigger] utf8(result@)[k] == (if k < prefix_idx { bc[k] } else { 0x20u8 }), // [N6.inv.text_before_head_untouched]
+            forall|k: int| prefix_idx + 5 <= k < prefix_idx + 5 + it.index@ ==> #[trigger] utf8(result@)[k] == nl_or_sp(bc[k]), // [N6.inv.head_blanked_keeping_newlines]
+            $c == prefix_idx + 5 && $d + 1 == prefix_idx + 5 + verif_head@.len() && $d < bc.len(), // [N6.inv.head_runs_from_after_prefix_through_open_delimiter]
             it.seq().unref() == verif_head@,
+            verif_head@ == bc.subrange($c as int, $d + 1),
+//@edit rule=ghost before=<<result.push(if>> optional=1
+        proof {
+            // the byte looked at is byte prefix_idx + 5 + index of the comment text
+            assert(it.seq().unref()[it.index@ as int] == verif_head@[it.index@ as int]);
+            assert(verif_head@[it.index@ as int] == bc[prefix_idx + 5 + it.index@]); // [N6.proof.head_byte_is_comment_byte]
+        }
 //@edit rule=ghost before=<<result.push_str(&comment[open_idx>>
-    let ghost verif_fill = utf8(result@).subrange(prefix_idx + 5, utf8(result@).len() as int);
+    let ghost verif_r1 = utf8(result@);
     proof {
-        assert(verif_fill.len() == open_idx - (prefix_idx + 5) + 1); // [N6.proof.filler_covers_prefix_rest_and_open_delimiter]
-        assert(utf8(result@) =~= bc.subrange(0, prefix_idx as int) + sp(5) + verif_fill); // [N6.proof.prefix_blanked_by_five_spaces_then_filler]
-        assert forall|k: int| 0 <= k < verif_fill.len() implies #[trigger] verif_fill[k] == 0x20u8 || verif_fill[k] == bc[prefix_idx + 5 + k] by {
-            assert(k % 1 == 0);
-            assert(verif_fill[k] == utf8(result@)[prefix_idx + 5 + k]);
-            assert(bc.subrange(prefix_idx + 5, open_idx + 1)[k] == bc[prefix_idx + 5 + k]);
-        }
-        assert(verif_fill[open_idx - (prefix_idx + 5)] == 0x20u8) by {
-            assert((open_idx - (prefix_idx + 5)) % 1 == 0);
-            assert(verif_fill[open_idx - (prefix_idx + 5)] == utf8(result@)[open_idx as int]);
-            assert(bc.subrange(prefix_idx + 5, open_idx + 1)[open_idx - (prefix_idx + 5)] == bc[open_idx as int]);
-        }
+        assert(verif_r1.len() == open_idx + 1); // [N6.proof.filler_covers_prefix_rest_and_open_delimiter]
+        assert(nl_or_sp(bc[open_idx as int]) == 0x20u8);
     }
 //@closure rule=E12 find=<<|c|>> params=<<|c: char|>> ret=<<b: bool>>
             ensures b == md_delim()(c), // [N6.closure.is_opening_delimiter]
+//@edit rule=ghost before=<<['(', '"', '\''].contains(>> optional=1
+proof { reveal(is_md_delim); }
 //@closure rule=E12 find=<<|i|>> params=<<|i: usize|>> ret=<<j: usize>>
             requires i + start_search <= usize::MAX,
             ensures j == i + start_search, // [N6.closure.offset_in_comment]
